@@ -102,9 +102,12 @@ def scan_file(path, rel):
                 fn_at = last + src[last:i].find(m_fn.group(0).split()[0] if False else "fn " + m_fn.group(1))
                 m_vis = re.search(r"\bpub\b(\s*\([^)]*\))?(?=[^;{}]*\bfn\s+" + re.escape(m_fn.group(1)) + r"\b)", header)
                 vis = "" if not m_vis else ("pub" if not m_vis.group(1) else "restricted")
+                import hashlib
                 out[k2] = {"file": rel, "impl": impl, "fn": m_fn.group(1), "vis": vis,
                            "line": src.count("\n", 0, fn_at) + 1,
-                           "unsafe": bool(re.search(r"\bunsafe\b", header + body))}
+                           "unsafe": bool(re.search(r"\bunsafe\b", header + body)),
+                           # the text (comments and layout removed) the model was validated against
+                           "text": hashlib.sha1(re.sub(r"\s+", " ", header + body).encode()).hexdigest()[:12]}
                 stack.append(("fn", header))
             elif m_impl and not m_fn:
                 stack.append(("impl", "impl " + m_impl.group(1).strip()))
@@ -176,6 +179,20 @@ def compare(repo="/repo"):
             notes.append("fields changed: " + k)
     removed = [k for k in base if k not in cur]
     return added, removed, notes
+
+
+def changed(repo="/repo"):
+    """functions whose text (comments and layout aside) differs from the text recorded in the baseline —
+    the text the model was last validated against — plus functions the baseline does not have."""
+    cur = scan(repo)
+    base = json.load(open(BASE))["functions"]
+    out = []
+    for k, v in sorted(cur.items()):
+        if not v.get("fn"):
+            continue
+        if k not in base or base[k].get("text") != v.get("text"):
+            out.append(k)
+    return out
 
 
 def main():
